@@ -10,6 +10,7 @@ structure DState where
   topic : Drv.Topic.St := {}
   session : Drv.Session.St := {}
   broker : Drv.Broker.St := {}
+  bc : Drv.BC.St := {}
 
 def dispatch (st : DState) (line : String) : DState × String :=
   let toks := (line.splitOn " ").filter (· ≠ "")
@@ -22,6 +23,10 @@ def dispatch (st : DState) (line : String) : DState × String :=
   | "br" :: rest =>
     match Drv.Broker.handle st.broker rest with
     | some (t, out) => ({ st with broker := t }, out)
+    | none => (st, "bad-op")
+  | "bc" :: rest =>
+    match Drv.BC.handle st.bc rest with
+    | some (t, out) => ({ st with bc := t }, out)
     | none => (st, "bad-op")
   | "sess" :: rest =>
     match Drv.Session.handle st.session rest with
